@@ -300,7 +300,8 @@ fn convert_stops(grad: SvgNode) -> Vec<Stop> {
                 _ => prev_offset.number,
             };
             prev_offset = Length::new_number(offset);
-            let offset = crate::f32_bound(0.0, offset as f32, 1.0);
+            // Clamp before narrowing, because a huge `f64` becomes an infinite `f32`.
+            let offset = offset.clamp(0.0, 1.0) as f32;
 
             let (color, opacity) = match stop.attribute(AId::StopColor) {
                 Some("currentColor") => stop
